@@ -30,8 +30,57 @@ claim('C10',
       'commutation with fold and project; 2-6 D shapes with unequal sample sizes 1-3 (1-4 thorough), every subset/permutation/merge set up to 5-D.',
       'doubles as reals; gammaln replaced by the exact integer-argument stub (validated against scipy); shapes enumerated, values symbolic',
       'DESIGN.md 3/C10')
-_todo = 'check not built yet (work in progress in this session; see DESIGN.md for the plan)'
-for _p in ['C01','C03','C04','C05','C06','C08','C11','C12','C13','C14','C15','C17','C18','C19','C20']:
+
+claim('C03',
+      'Bounded symbolic check: (i) structurally, the coefficients of every tridiagonal solve issued by one_pop..five_pops contain no density/theta0 variable and the solver is linear in r (lemma T3 from tridiag.c), (ii) end to end with the real Thomas code interpreted inline at rational grid/parameter points z3 proves out(a*phi1+b*phi2, a*th1+b*th2)=a*out(phi1,th1)+b*out(phi2,th2) for symbolic densities/theta0s over 1-3 steps, 1-4 pops (5 in thorough), (iii) reference-size invariance: both parametrisations (x c) are run on a symbolic density and every solve of the second run is proved to be the first one divided by c (so both produce the same density by uniqueness), with the real time-step rule (1 pop, c symbolic) or its proved covariance lemma (2-5 pops, rational c); phi_1D invariance incl. genic selection.',
+      'doubles as reals; tridiagonal solve replaced by its contract in the scaling units (justified by T1\'), EXP uninterpreted (congruence); rational parameter points chosen by VERIF_SEED for the end-to-end linearity units',
+      'DESIGN.md 3/C03')
+claim('C04',
+      'Bounded symbolic check: trapezoid-weighted column sums of the system of every line of every kernel (symbolic grids/parameters) = w_k/dt plus absorption only at the two corners; decoupling of interior from boundary rows and identical systems on all lines when m=gamma=0; drivers sweep exactly the non-frozen axes, inject dt*theta0/(2x1) only into non-frozen/non-nomut populations, reject frozen+incident migration for every m!=0; end to end (inline Thomas, rational points, symbolic density): frozen marginals unchanged at interior frequencies, isolated-subset marginals equal the lower-dimensional integration, total mass = influx - corner outflow per sweep, 2-5 pops.',
+      'doubles as reals; tridiagonal contract in coefficient-level units; _compute_dt stubbed by a fresh dt>=T in symbolic-parameter driver units; rational points by VERIF_SEED',
+      'DESIGN.md 3/C04')
+claim('C05',
+      'Bounded symbolic check of the real Spectrum.from_phi dispatch and samplers on symbolic densities (symbolic 1-D grids, rational 2-5-D grids): semi-analytic entries equal an independent exact cell-wise polynomial integral, totals equal trapezoid mass, linearity, project(from_phi(n),m)=from_phi(m), marginalise/sample commute, direct/het-ascertained/admix-props paths equal their trapezoid definitions, grid overshoot clamping, bookkeeping; inbreeding paths (beta-binomial convolution sums to 1, F->0 bound) as stretch units.',
+      'doubles as reals (>=2-D semi-analytic laws up to 2^-40 of the mass because dadi forms float constants); betainc/comb/gammaln replaced by exact integer-argument stubs validated against scipy',
+      'DESIGN.md 3/C05')
+claim('C06',
+      'Bounded symbolic check of every PhiManip constructor, split, pulse (all 14 phi_*D_admix_*), remove/filter/reorder on symbolic densities and symbolic proportions in the closed simplex over rational grids: every feasible searchsorted cell (incl. frequencies landing on grid points) is explored and z3 proves marginal conservation, two-point linear deposition, identity at proportion 0, acceptance on the whole simplex, rejection above 1, per-axis grids, explicit trapezoid/permutation oracles.',
+      'doubles as reals; grids rational (symbolic grids outside); at most two proportions symbolic at once, the others enumerated rationals',
+      'DESIGN.md 3/C06')
+claim('C08',
+      'Bounded symbolic check of the real Spectrum.project/_cached_projection with exact log-space weights: every projected entry equals the hypergeometric expectation (math.comb oracle) for symbolic data, totals, two-stage=one-stage, axis-order independence, 1/i fixed point, mask = reachable-with-non-zero-weight, folded = fold(project(unfold)), upward projection refused, cold and scrambled-warm cache; 1-D n<=40 (all m), weights up to n=200 for selected m, 2-4-D small shapes.',
+      'doubles as reals; gammaln/exp replaced by exact log-rational stubs (float accuracy of the log-space formula outside)',
+      'DESIGN.md 3/C08')
+claim('C11',
+      'Bounded symbolic check of the real Inference.ll/ll_per_bin/ll_multinom/optimal_sfs_scaling/optimally_scaled_sfs/linear_Poisson_residual on symbolic model/data spectra with independent enumerated masks, folded and unfolded: per-bin Poisson formula over exactly the joint mask, scaling = sum(d)/sum(m) over the joint entries, ll_multinom = ll(theta*model), invariance under model rescaling, ll(c*m)<=ll_multinom(m) from instantiated log axioms, residual sign/mask; "model=c*data maximises" as stretch.',
+      'doubles as reals; log/gammaln/sqrt replaced by contract stubs (fresh value per distinct argument, argument identities proved; sqrt characterised exactly)',
+      'DESIGN.md 3/C11')
+claim('C12',
+      'Bounded symbolic check of the optimiser plumbing with nlopt/scipy optimisers replaced by contract stubs: parameter projection up/down mutually inverse for every fixed mask (1-4 params), _object_func evaluates the model only inside the bounds with fixed values placed, NLopt_mod.opt and every scipy wrapper start at the user point, never evaluate outside the bounds, return fixed values unchanged, return the optimiser\'s point (natural and log parametrisation) whose likelihood is the reported optimum, perturb_params formula and clamps.',
+      'doubles as reals; behaviour of nlopt/scipy themselves is outside (contract: evaluates x0 first, returns a point within the bounds it was given, no worse than the start); EXP/LOG uninterpreted with inverse instances',
+      'DESIGN.md 3/C12')
+claim('C13',
+      'Bounded check: symbolic part - Spectrum._from_count_dict/from_data_dict with symbolic per-key multiplicities equals the sum of hypergeometric projections (folded when unpolarised), totals, additivity over chunks; S, pi, Watterson, theta_L, Tajima D, Fst on symbolic spectra equal per-SNP definitions; bootstraps over every scripted draw. String/dict layer (count_data_dict, fragment_data_dict, make_data_dict_vcf incl. subsampling) by bounded-exhaustive enumeration against independent references (concrete runs, labelled as such).',
+      'doubles as reals (slack 2^-40 where dadi forms float constants); random draws scripted exhaustively; VCF/dict layer is enumeration, not solver-decided',
+      'DESIGN.md 3/C13')
+claim('C14',
+      'Weak fragment: CrossHair symbolic execution of the real to_file/from_file through in-memory files with symbolic labels/comments/flags/mask bits (small bounded strings; "Not confirmed" reported as stretch-inconclusive), complemented by bounded-exhaustive concrete enumeration on real files (plain, gzip, pickle, array writer, pre-1.3 format) with an independent parser of the documented format.',
+      'string symbolic execution bounded to a few characters; numeric formatting/parsing exercised concretely only; enumeration part is not solver-decided',
+      'DESIGN.md 3/C14', technique='CrossHair symbolic execution (z3 strings) + bounded-exhaustive enumeration')
+claim('C17',
+      'Bounded symbolic check of the real Cache1D/Cache2D integrate*, mixture*, Vourlaki mixture, merge and cache-building logic on caches with symbolic spectra, theta, proportions, rho: result = theta x documented quadrature decomposition (trapezoid + tails/edges/corners, point-mass quadrant weights), parameter slices per density, linearity in theta, merge raises iff a job is missing/conflicting, worker-fault reporting under a sequential in-process model of the pool, C bivariate pdfs (LLVM IR) equal their Python/textbook formulas.',
+      'doubles as reals; pdf and quad/dblquad are contract stubs (fresh value per abscissa / per integrand+limits); OS-level multiprocessing and quadrature accuracy outside',
+      'DESIGN.md 3/C17')
+claim('C18',
+      'Bounded symbolic check of the real LowPass helpers on symbolic coverage distributions (simplex) and symbolic models: partition enumeration and probabilities, projection and calling-error matrices row-stochastic and non-negative, no-call probability in [0,1], corrected total <= uncorrected, deep-coverage limit equals hypergeometric projection, F->0 continuity of the inbred projection matrix; n_sequenced<=8, depths<=8 dense / 80 sparse.',
+      'doubles as reals; scipy special functions replaced by exact stubs; sums abstracted by fresh reals with z3-proved lemmas; simulated regime outside',
+      'DESIGN.md 3/C18')
+claim('C19',
+      'Bounded symbolic check: get_hess/get_grad/hessian_elem exact on every quadratic (all 3^k stencil regimes, k<=3 quick, 5 thorough) and linear function; on linear Poisson models the real get_godambe/FIM/GIM/LRT/Wald/score assemble H, J, cU, GIM and the statistics exactly by their definitions from the exact stencils, are invariant under bootstrap permutations and independent of cache history; sum_chi2_ppf accepts scalars and arrays.',
+      'doubles as reals; log/gammaln/sqrt/chi2.cdf uninterpreted, numpy.linalg.inv replaced by an exact adjugate inverse whose contract is proved; O(eps^2) closeness to analytic closed forms outside',
+      'DESIGN.md 3/C19')
+_todo = 'check not built yet (in progress in this session; see DESIGN.md for the plan)'
+for _p in ['C01','C15','C20']:
     NA[_p] = _todo
 NA['C16'] = ('every path from a demes graph to a spectrum goes through the third-party demes package (attrs validators, float() coercion, '
              'math.isclose, YAML) which forces all symbolic values to concrete floats: nothing is left for a solver to quantify over (DESIGN.md section 4)')
